@@ -59,6 +59,10 @@ func (a DispatchedAmountEntry) Validate() error {
 		return errorsmod.Wrap(err, "invalid destination cross-chain ID")
 	}
 
+	if a.AmountDispatched.Incoming.IsNil() || a.AmountDispatched.Outgoing.IsNil() {
+		return errorsmod.Wrap(core.ErrNilPointer, "missing incoming or outgoing amount")
+	}
+
 	if a.AmountDispatched.Incoming.IsNegative() || a.AmountDispatched.Outgoing.IsNegative() {
 		return errors.New("cannot set negative amounts")
 	}
